@@ -52,6 +52,15 @@ CHECKS = {
              "compared with the native expression. Exhaustive over the stated finite matrix, sampling beyond it.",
         note="trusts g++ -O2 on x86-64 as the reference semantics; UB-without-trap inputs are excluded by predicate (counted in evidence)",
         design="4/C05"),
+    "C09": dict(
+        engine="hypothesis-runner",
+        category="fault_enumeration",
+        technique="fault injection enumerated over every callback invocation of each generated program (Hypothesis-generated programs x k-th cb() call x exception kind), invariant on the engine's stack shape",
+        text="For each generated program every dynamic invocation of the harness callback (up to a cap) is made to throw, once per exception kind, on a "
+             "fresh engine; after eval the thread's stack holder (stacks, scopes, call_params, call depth, conversion saves) must equal the pre-call "
+             "shape, get_locals() must hold exactly the completed top-level declarations, and a follow-up script must evaluate normally.",
+        note="enumeration is complete per program only up to the callback cap (10 quick / 25 thorough) and over 2 (quick) or 6 (thorough) exception kinds; shape read through a guarded accessor",
+        design="4/C09"),
     "C10": dict(
         engine="hypothesis-runner",
         category="exploration",
